@@ -1,4 +1,5 @@
 import QtVerif.Proofs.StoreMongoX
+import QtVerif.Proofs.MongoRun
 import QtVerif.Proofs.StoreStrong
 import QtVerif.Proofs.StoreFileWF
 /-!
@@ -24,7 +25,10 @@ reference error of any kind; the theorems stated with them are kept as corollari
 
 The Mongo driver is modelled as far as `drivers/persist/mongo.py` itself goes (identifier mapping, filter / sort /
 projection translation, record ↔ document, the update / replace / remove / insert shapes) and proved to refine the
-reference store PER OPERATION (PARTIAL: no run-level theorem, see `mongoRefinesRefFull`) *modulo a declarative SPEC
+reference store PER OPERATION (the `mongo_*_xlate_sound` theorems) and, chaining those, along EVERY HISTORY of
+contract-domain operations (`mongo_refines_ref_run`) under two explicit provisos — every ObjectId the engine
+generates is fresh in the engine state reached so far (`FreshRun`, a hypothesis), and update counts are compared by
+`≤` (`AgreeByLe`); the unqualified statement `mongoRefinesRefFull` is false — all of it *modulo a declarative SPEC
 of the document engine* (`Mongo.eFind` …), which is an assumption about MongoDB validated only through mongomock by
 the correspondence check.
 -/
@@ -363,8 +367,10 @@ Status of this section: **PARTIAL**. The `mongo_*_xlate_sound` theorems below ar
 arbitrary related pair of states (`RelM`), modulo the declarative engine SPEC (`Mongo.eFind`, `eMatches`, … — an
 assumption about MongoDB, validated only through mongomock by the correspondence check), restricted to the contract
 domain (`MQueryOK` / `MFiltOK` / `MInsertOK` / `MRecIn`); insert needs a freshness hypothesis on the ObjectId the
-engine generates, and update only bounds the reported count (`m ≤ n`). There is NO run-level refinement theorem
-for Mongo: its statement is `mongoRefinesRefFull` below, which is not proved. -/
+engine generates, and update only bounds the reported count (`m ≤ n`). The run-level refinement in the shape of
+`redis_refines_ref` (`mongoRefinesRefFull` below) is FALSE as stated; the run-level theorem that does hold,
+`mongo_refines_ref_run` (last section of this file), carries the freshness of every generated ObjectId as a
+hypothesis (`FreshRun`) and compares update counts by `≤` (`AgreeByLe`). -/
 
 /-- the operations of the Mongo contract domain: the hypotheses of the per-operation theorems -/
 def MOpOK : Op → Prop
@@ -399,8 +405,9 @@ theorems do NOT add up to:
   `mongo_update_xlate_sound` proves only `m ≤ n` (recorded finding C06-mongo-update-modified-count), so `AgreeBy`
   (equal counts) fails on an update that matches a record without changing it. A provable variant must compare
   update counts by `≤`;
-* the per-operation theorems would have to be chained by an induction over the history as for JSON / Redis (`RelM`
-  is re-established by each of them; this part is routine and is simply not done). -/
+* the per-operation theorems have to be chained by an induction over the history as for JSON / Redis (`RelM` is
+  re-established by each of them).
+The variant with exactly these three changes is proved: `mongo_refines_ref_run` at the end of this file. -/
 def mongoRefinesRefFull : Prop :=
   ∀ hist : List (Op × List Nat), (∀ og ∈ hist, MOpOK og.1 ∧ GenOK og.2) → AgreeBy normRes (runMongo [] [] hist)
 
@@ -433,7 +440,7 @@ theorem mongo_filter_xlate_sound (d : Fields) (hd : MRecOK d) (filt : Fields) (h
   xlate_matches d hd filt hf ef he b h
 
 /-- **`mongo_xlate_sound`** (PARTIAL: per operation from any related pair of states, modulo the engine SPEC, contract
-domain only; no run-level theorem, see `mongoRefinesRefFull`): for filters / sorts / projections / limits in the contract domain (`MQueryOK`: no
+domain only; for the run-level theorem see `mongo_refines_ref_run`): for filters / sorts / projections / limits in the contract domain (`MQueryOK`: no
 sort by "id", no `limit=0`, no `fields=[]`, no "_id" keys — the recorded engine classes), the translated query run
 on the engine SPEC returns exactly the reference store's records, in the same order, the id last in each. -/
 theorem mongo_xlate_sound (ms : Mongo.MState) (rs : RefState) (hrel : RelM ms rs) (gen : List Nat) (coll : Str)
@@ -486,7 +493,7 @@ theorem mongo_replace_xlate_sound (ms : Mongo.MState) (rs : RefState) (hrel : Re
   mongo_replace_sound ms rs hrel gen coll id rec hr hnoid
 
 /-- insert (PARTIAL: per operation, modulo the engine SPEC, under the freshness HYPOTHESIS `hfresh` on the generated
-ObjectId, which no theorem here discharges along a history): explicit ids come back as given (duplicates are refused on both sides); a document without "_id" gets
+ObjectId, which no theorem here discharges along a history — `mongo_refines_ref_run` carries it as `FreshRun`): explicit ids come back as given (duplicates are refused on both sides); a document without "_id" gets
 the ObjectId `gen` the engine generates — assumed not to be in use (`hfresh`) — and the reference store accepts
 its hex text as a free name; same state afterwards. -/
 theorem mongo_insert_xlate_sound (ms : Mongo.MState) (rs : RefState) (hrel : RelM ms rs) (gen : List Nat) (coll : Str)
@@ -499,5 +506,118 @@ theorem mongo_insert_xlate_sound (ms : Mongo.MState) (rs : RefState) (hrel : Rel
 
 example : MInsertOK [([110], .int 1), (kId, .str [97])] ∧ GenOK [1, 2, 3, 4, 5, 6, 7, 8, 9, 10, 11, 255] :=
   ⟨⟨⟨by decide, by decide⟩, Or.inr ⟨[97], rfl⟩⟩, by decide, by decide⟩
+
+/-! ## The Mongo driver: the run
+
+The run-level refinement that IS provable (cf. `mongoRefinesRefFull`, which is not): the per-operation theorems
+chained through `RelM` by induction over the history (`mongo_run_agrees` in `QtVerif/Proofs/MongoRun.lean`), with
+* `FreshRun ms hist` — a HYPOTHESIS, discharged by nothing here: at every insert of a record without "id", the
+  ObjectId `gen` that comes with the operation is not the "_id" of a document the ENGINE holds in that collection in
+  the state reached so far (`Mongo.hasUid (.oid gen) docs = false`). It is a statement about MongoDB's ObjectId
+  generator relative to the whole history (explicit ids that look like ObjectIds included);
+* `AgreeByLe normRes ops l` — `AgreeBy normRes l` except that at `update` operations the driver's count
+  (`modified_count`) is only `≤` the reference store's (number of matching records). As `AgreeBy`, it demands that
+  the reference store never answers `notFresh` and stops comparing at the first reference error of any kind
+  (`AgreeByLe.of_noUpdate`: without updates it is `AgreeBy`; `AgreeByLe.of_agreeBy`: it is weaker than `AgreeBy`).
+Still modulo the engine SPEC (`Mongo.step` runs the driver's translation on the declarative `Mongo.eFind` /
+`eMatches` / … of the model: an assumption about MongoDB, not a theorem) and restricted to the contract domain
+(`MOpOK`). -/
+
+/-- `MOpOK` / `runMongo` above are the `MongoOpOK` / `mongoRun` of `QtVerif/Proofs/MongoRun.lean` -/
+theorem mOpOK_iff (op : Op) : MOpOK op ↔ MongoOpOK op := by cases op <;> exact Iff.rfl
+
+theorem runMongo_eq_mongoRun : ∀ (hist : List (Op × List Nat)) (ms : Mongo.MState) (rs : RefState),
+    runMongo ms rs hist = mongoRun ms rs hist := by
+  intro hist
+  induction hist with
+  | nil => intro _ _; rfl
+  | cons og t ih =>
+    obtain ⟨op, gen⟩ := og
+    intro ms rs
+    simp only [runMongo, mongoRun, ih]
+    rfl
+
+/-- the run-level refinement from ANY related pair of states (`RelM`: the engine holds, per collection, the
+documents of the reference store's records, in order; ids distinct; records the driver can hold) -/
+theorem mongo_refines_ref_run_from (ms : Mongo.MState) (rs : RefState) (hrel : RelM ms rs)
+    (hist : List (Op × List Nat)) (hops : ∀ og ∈ hist, MOpOK og.1 ∧ GenOK og.2) (hfresh : FreshRun ms hist) :
+    AgreeByLe normRes (hist.map Prod.fst) (runMongo ms rs hist) := by
+  rw [runMongo_eq_mongoRun]
+  exact mongo_run_agrees hist ms rs hrel (fun og h => ⟨(mOpOK_iff og.1).mp (hops og h).1, (hops og h).2⟩) hfresh
+
+/-- **`mongo_refines_ref_run`** — the Mongo driver (over the engine SPEC) refines the reference store along every
+history: for every sequence of operations of the contract domain, each with a well-formed generated ObjectId
+(`GenOK`), such that every ObjectId the engine actually generates (inserts without "id") is fresh in the engine state
+reached so far (`FreshRun`, a hypothesis), started from the empty stores: the reference store — offered the ids the
+driver returned — never answers `notFresh`, and up to its first error every answer of the driver is the reference
+store's (`normRes`: the id last in each record), except that an update reports a count `≤` the reference store's
+(`AgreeByLe`). This is `mongoRefinesRefFull` with the three amendments listed in its comment. -/
+theorem mongo_refines_ref_run (hist : List (Op × List Nat))
+    (hops : ∀ og ∈ hist, MOpOK og.1 ∧ GenOK og.2) (hfresh : FreshRun [] hist) :
+    AgreeByLe normRes (hist.map Prod.fst) (runMongo [] [] hist) :=
+  mongo_refines_ref_run_from [] [] RelM.init hist hops hfresh
+
+/-- histories WITHOUT update: plain `AgreeBy normRes`, the conclusion of `redis_refines_ref` / of
+`mongoRefinesRefFull` — freshness (`FreshRun`) is then the only extra hypothesis -/
+theorem mongo_refines_ref_run_noUpdate (hist : List (Op × List Nat))
+    (hops : ∀ og ∈ hist, MOpOK og.1 ∧ GenOK og.2) (hfresh : FreshRun [] hist)
+    (hno : ∀ og ∈ hist, og.1.isUpdate = false) :
+    AgreeBy normRes (runMongo [] [] hist) :=
+  AgreeByLe.of_noUpdate normRes _ _
+    (fun op h => by obtain ⟨og, hog, e⟩ := List.mem_map.mp h; rw [← e]; exact hno og hog)
+    (mongo_refines_ref_run hist hops hfresh)
+
+/-- a concrete history: insert without id (the engine generates `0102…0bff`), insert with the explicit id "a",
+update of field "n" on every record (it changes one of the two), query, remove by id -/
+def demoGen : List Nat := [1, 2, 3, 4, 5, 6, 7, 8, 9, 10, 11, 255]
+def demoHist : List (Op × List Nat) :=
+  [(.insert [99] [([110], .int 1)], demoGen),
+   (.insert [99] [([110], .int 2), (kId, .str [97])], demoGen),
+   (.update [99] [([110], .int 2)] [], demoGen),
+   (.query [99] none [] [] none, demoGen),
+   (.remove [99] [(kId, .str [97])], demoGen)]
+
+/-- the hypotheses of `mongo_refines_ref_run` are met by `demoHist` (non-vacuity): contract domain … -/
+theorem demoHist_ok : ∀ og ∈ demoHist, MOpOK og.1 ∧ GenOK og.2 := by
+  have hg : GenOK demoGen := ⟨by decide, by decide⟩
+  have hf0 : MFiltOK [] := ⟨by decide, by decide, fun c hc => by simp [dget] at hc⟩
+  intro og hog
+  simp only [demoHist, List.mem_cons, List.mem_nil_iff, or_false] at hog
+  rcases hog with h | h | h | h | h <;> subst h <;> refine ⟨?_, hg⟩
+  · exact ⟨⟨by decide, by decide⟩, Or.inl rfl⟩
+  · exact ⟨⟨by decide, by decide⟩, Or.inr ⟨[97], rfl⟩⟩
+  · exact ⟨hf0, by decide⟩
+  · exact ⟨hf0, by decide, by decide, by decide, fun fs hfs => by cases hfs⟩
+  · refine ⟨by decide, by decide, ?_⟩
+    intro c hc
+    simp only [dget, kId, if_true, Option.some.injEq] at hc
+    subst hc
+    exact trivial
+
+/-- … and freshness of the generated ObjectId along the run (decidable) -/
+example : FreshRun [] demoHist := by decide
+
+/-- freshness is a real constraint: the same history with the first insert repeated is not `FreshRun` -/
+example : ¬ FreshRun [] ((Op.insert [99] [([110], .int 1)], demoGen) :: demoHist) := by decide
+
+/-- the run itself: no reference error, so all five answers are compared; the update reports 1 (modified) against
+the reference store's 2 (matched) — the conclusion is not trivial, and it is not `AgreeBy` -/
+theorem demoRun : runMongo [] [] demoHist =
+    [(.id (Mongo.bytesHex demoGen), .id (Mongo.bytesHex demoGen)),
+     (.id [97], .id [97]),
+     (.count 1, .count 2),
+     (.recs [[([110], .int 2), (kId, .str (Mongo.bytesHex demoGen))], [([110], .int 2), (kId, .str [97])]],
+      .recs [[([110], .int 2), (kId, .str (Mongo.bytesHex demoGen))], [([110], .int 2), (kId, .str [97])]]),
+     (.count 1, .count 1)] := by
+  rfl
+
+example : AgreeByLe normRes (demoHist.map Prod.fst) (runMongo [] [] demoHist) :=
+  mongo_refines_ref_run demoHist demoHist_ok (by decide)
+
+/-- on this history `AgreeBy` (equal update counts) fails: the relaxation to `≤` in `AgreeByLe` is needed -/
+theorem demoRun_not_agreeBy : ¬ AgreeBy normRes (runMongo [] [] demoHist) := by
+  intro h
+  rw [demoRun] at h
+  simp [AgreeBy, normRes] at h
 
 end QtVerif.Store.C06
